@@ -38,7 +38,10 @@ def main(argv):
         mod = importlib.import_module(modname)
         rec = core.Rec(mod.ID)
         core.WATCH.install()
-        mod.replay(arg, rec)
+        try:
+            mod.replay(arg, rec)
+        except core.AbortUnit:
+            pass
         packed = rec.pack()
     with open(out + ".tmp", "wb") as f:
         f.write(pickle.dumps(packed))
